@@ -22,6 +22,9 @@ const (
 // Hook mirrors simos.Hook for msync/mmap/munmap (op, "" path).
 var Hook func(op string, b []byte) error
 
+// After is called after a successful mmap ("mmap", fd in n), msync or munmap.
+var After func(op string, b []byte, fd int)
+
 var deferred [][]byte
 
 // Mapped counts live mappings (for leak probes).
@@ -40,6 +43,9 @@ func Mmap(fd int, offset int64, length int, prot int, flags int) ([]byte, error)
 	b, err := unix.Mmap(fd, offset, length, prot, flags)
 	if err == nil {
 		Mapped++
+		if After != nil {
+			After("mmap", b, fd)
+		}
 	}
 	return b, err
 }
@@ -54,7 +60,11 @@ func Msync(b []byte, flags int) error {
 			return err
 		}
 	}
-	return unix.Msync(b, flags)
+	err := unix.Msync(b, flags)
+	if err == nil && After != nil {
+		After("msync", b, -1)
+	}
+	return err
 }
 
 func Munmap(b []byte) error {
@@ -75,6 +85,9 @@ func Munmap(b []byte) error {
 	}
 	Mapped--
 	deferred = append(deferred, b)
+	if After != nil {
+		After("munmap", b, -1)
+	}
 	return nil
 }
 
